@@ -33,7 +33,7 @@ BUDGET = {"quick": 45.0, "thorough": 480.0}
 
 
 def shards(tier, seed):
-    mult = 1 if tier == "quick" else 14
+    mult = 1 if tier == "quick" else 40
     return [{"n": 160 * mult} for _ in range(16)]
 
 
